@@ -260,18 +260,26 @@ pub fn run(family: &str, cases_path: &str, events_path: &str, gen_dir: &str, sha
             .iter()
             .map(|p| p.get("ty").and_then(|r| resolve(&mut ts, &returned, r)))
             .collect();
-        let (rres, items, _text, msg) = doc::render(&ts);
+        let (rres, items, text, msg) = doc::render(&ts);
         let stream_ok = rres == "ok";
         let mut rev = json!({"ev": "render", "case": case_no, "res": rres, "msg": msg.chars().take(200).collect::<String>(),
                              "items": items});
         // the uses_* flags, for C17
+        let squeezed: String = text.chars().filter(|c| !c.is_whitespace()).collect();
+        rev["mentions"] = json!({"chrono": squeezed.contains("::chrono::"), "uuid": squeezed.contains("::uuid::"),
+                                 "serde_json": squeezed.contains("::serde_json::"), "regress": squeezed.contains("regress::")});
         rev["uses"] = json!({"chrono": ts.uses_chrono(), "uuid": ts.uses_uuid(),
                              "serde_json": ts.uses_serde_json(), "regress": ts.uses_regress()});
         out.ev(rev);
         if family == "intro" || family == "all" {
             let mut rows = vec![];
-            for t in ts.iter_types() {
+            // iter_types() walks id_to_entry in id order, as the snapshot does: the
+            // snapshot supplies the id of each row (the public API does not expose it)
+            let snap = ts.verif_snapshot();
+            let ids: Vec<u64> = snap["entries"].as_array().unwrap().iter().map(|e| e["id"].as_u64().unwrap()).collect();
+            for (ti, t) in ts.iter_types().enumerate() {
                 let mut p = doc::public_proj(&ts, &t);
+                p["id"] = json!(ids.get(ti).copied().unwrap_or(0));
                 p["impls"] = doc::impl_flags(&t);
                 p["builder"] = json!(guarded(|| t.builder().map(|b| inv::norm_tokens(&b))).ok().flatten().unwrap_or_default());
                 rows.push(p);
